@@ -114,6 +114,6 @@ def run_map(garble, stub, records, garble_flags=(), go_flags=(), pkgs=("./...",)
     if gogarble is not None:
         extra["GOGARBLE"] = gogarble
     env, lpath = stub.env(conf, extra)
-    r = subprocess.run([garble] + list(garble_flags) + [command] + list(go_flags) + list(pkgs), env=env,
+    r = subprocess.run([garble] + list(garble_flags) + [command] + list(go_flags) + list(pkgs), env=env, stdin=subprocess.DEVNULL,
                        stdout=subprocess.PIPE, stderr=subprocess.PIPE, cwd=stub.dir)
     return r, vlib.read_log(lpath)
